@@ -852,13 +852,16 @@ func (e *Executor) Execute(ctx context.Context, m File) (err error) {
 		// If the file has been applied partially before, check if the
 		// applied statements have not changed.
 		for i := 0; i < r.Applied; i++ {
-			if i > len(sums) || sums[i] != strings.TrimPrefix(r.PartialHashes[i], "h1:") {
+			if i >= len(sums) || i >= len(r.PartialHashes) || sums[i] != strings.TrimPrefix(r.PartialHashes[i], "h1:") {
 				err = HistoryChangedError{m.Name(), i + 1}
 				e.log.Log(LogError{Error: err})
 				return err
 			}
 		}
 	}
+	// The statements that were not applied yet may have changed since
+	// the last attempt. Keep the revision in sync with the current file.
+	r.Total, r.Hash = len(stmts), hash
 	e.log.Log(LogFile{m, r.Version, r.Description, r.Applied})
 	if err := e.fileChecks(ctx, m, r); err != nil {
 		e.log.Log(LogError{Error: err})
